@@ -50,14 +50,15 @@ InitS(c) ==
     failedSurvey |-> {}, failedAlloc |-> {}, refused |-> {}, tried |-> {},
     deferred |-> "",                          \* a rule broken without (so far) visible consequence: reported at the end
 
-    abortSent |-> {}, closedOk |-> {}, failedB |-> {},
+    abortSent |-> {}, abortLost |-> {}, closedOk |-> {}, failedB |-> {},
+    superseded |-> {},                        \* buckets aborted while server selection went on (given up for a new plan)
     res |-> [kind |-> "none", placed |-> {}] ]
 
 V(c, s) == [c |-> c, S |-> s]
 Same(c) == V(c, S)
 Held(s) == OnServer(S.ackEx \cup S.ackAlready \cup S.ackAlloc, s)
 KnownRO == AdvertisedRO \cup S.failedSurvey \cup S.failedAlloc \cup S.refused
-AliveBuckets == S.ackAlloc \ S.failedB
+AliveBuckets == (S.ackAlloc \ S.failedB) \ S.superseded
 AckExisting == S.ackEx \cup S.ackAlready
 OutstandingKinds == {S.reqs[S.out[s]].kind : s \in {x \in Srv : S.out[x] # 0}}
 
@@ -78,7 +79,10 @@ ROCause(s) == IF s \in AdvertisedRO THEN "advertised"
 VSendAlloc(e) ==
   LET asked == ToSet(e.asked)
       newRound == ~S.roundOpen
-      eff == EffectiveHappiness(AckExisting, S.ackAlloc)
+      effSurvey == EffectiveHappiness(S.ackEx, AliveBuckets \ S.abortSent)
+      eff == EffectiveHappiness(AckExisting, AliveBuckets \ S.abortSent)      \* with the shares named in alreadygot answers
+      \* docs/architecture.rst: the alreadygot of an allocate_buckets answer is "added to the share-to-server table"
+      goesOn == newRound /\ S.rounds >= 1 /\ eff >= C.happy
       others == UNION {S.roundAsked[s] : s \in Srv \ {e.srv}}
   IN IF ~S.allocSeen /\ S.surveyed # Targets THEN Same("XP_SurveyCoversFirst2N")
      ELSE IF "get" \in OutstandingKinds THEN Same("XP_SurveyCompleteBeforeAllocate")
@@ -86,7 +90,7 @@ VSendAlloc(e) ==
      ELSE IF S.out[e.srv] # 0 THEN Same("XP_OneOutstandingPerServer")
      ELSE IF newRound /\ "alloc" \in OutstandingKinds THEN Same("XP_RoundCompleteBeforeNext")
      ELSE IF newRound /\ S.rounds >= 1 /\ ~S.roundBad THEN Same("XP_ReplanOnlyAfterFailedPlacement")
-     ELSE IF newRound /\ S.rounds >= 1 /\ eff >= C.happy THEN Same("XP_StopWhenHappy")
+     ELSE IF newRound /\ S.rounds >= 1 /\ effSurvey >= C.happy THEN Same("XP_StopWhenHappy")
      ELSE IF ~e.secret_ok THEN Same("XP_LeaseSecretOfClient")
      ELSE IF ~(asked \subseteq Shares) THEN Same("XP_AskedShareNumbersValid")
      ELSE IF ~newRound /\ e.srv \in S.roundSrv THEN Same("XP_OneRequestPerServerPerRound")
@@ -94,12 +98,16 @@ VSendAlloc(e) ==
      ELSE IF e.srv \in KnownRO /\ ~(asked \subseteq Held(e.srv)) /\ ROCause(e.srv) # "after_refusal"
        THEN Same("XP_NoNewShareFromRO:" \o ROCause(e.srv))
      ELSE LET reasked == e.srv \in KnownRO /\ ~(asked \subseteq Held(e.srv))
-              S0 == IF reasked /\ S.deferred = "" THEN [S EXCEPT !.deferred = "XP_NoNewShareFromRO:after_refusal"] ELSE S
+              S0 == IF S.deferred # "" THEN S
+                    ELSE IF goesOn THEN [S EXCEPT !.deferred = "XP_StopWhenHappy:alreadygot"]
+                    ELSE IF reasked THEN [S EXCEPT !.deferred = "XP_NoNewShareFromRO:after_refusal"]
+                    ELSE S
               S1 == IF newRound
                       THEN [S0 EXCEPT !.roundOpen = TRUE, !.roundBad = FALSE, !.rounds = @ + 1,
                                       !.roundAsked = [s \in Srv |-> {}], !.roundSrv = {}]
                       ELSE S0
           IN V("", [S1 EXCEPT !.out[e.srv] = e.seq, !.allocSeen = TRUE, !.allocSentTo = @ \cup {e.srv},
+                              !.superseded = @ \cup S.abortSent,
                               !.tried = IF asked # {} THEN @ \cup {e.srv} ELSE @,
                               !.roundAsked[e.srv] = asked, !.roundSrv = @ \cup {e.srv},
                               !.reqs = (e.seq :> [srv |-> e.srv, kind |-> "alloc", asked |-> asked]) @@ @])
@@ -141,6 +149,8 @@ VRecvAlloc(e, late) ==
                   IN V("", [S1 EXCEPT !.out[e.srv] = 0, !.allocAnswered = @ \cup {e.srv},
                                       !.ackAlready = @ \cup ({e.srv} \X already),
                                       !.ackAlloc = @ \cup ({e.srv} \X allocated),
+                                      !.abortSent = @ \ ({e.srv} \X allocated),       \* allocated anew after an abort
+                                      !.superseded = @ \ ({e.srv} \X allocated),
                                       !.refused = IF refusedAll THEN @ \cup {e.srv} ELSE @,
                                       !.roundBad = (@ \/ PlacedNothing(TRUE, allocated)),
                                       !.roundOpen = FALSE])
@@ -156,7 +166,8 @@ VClose(e) ==
   IF e.ok THEN V("", [S EXCEPT !.St = ApplyClose(S.St, e.srv, e.sh), !.closedOk = @ \cup {<<e.srv, e.sh>>},
                                !.renewed[e.srv] = @ \cup {e.sh}])
   ELSE V("", [S EXCEPT !.failedB = @ \cup {<<e.srv, e.sh>>}])
-VAbort(e) == IF e.ok THEN V("", [S EXCEPT !.St = ApplyAbort(S.St, e.srv, e.sh)]) ELSE Same("")
+VAbort(e) == IF e.ok THEN V("", [S EXCEPT !.St = ApplyAbort(S.St, e.srv, e.sh)])
+             ELSE V("", [S EXCEPT !.abortLost = @ \cup {<<e.srv, e.sh>>}])      \* the abort was sent; an injected fault ate it
 VWriteLost(e) == V("", [S EXCEPT !.failedB = @ \cup {<<e.srv, e.sh>>}])
 
 (* ---- the result ---------------------------------------------------------------------------- *)
@@ -197,7 +208,7 @@ VUnhappy(e) ==
       nums == e.nums
   IN IF C.order = <<>> THEN Same("XP_NoServersOnlyWithoutServers")
      ELSE IF SelectionPhase /\ Untried # {}
-       THEN Same(IF S.deferred # "" THEN "XP_GiveUpEarly:refuser_asked_again"
+       THEN Same(IF S.deferred = "XP_NoNewShareFromRO:after_refusal" THEN "XP_GiveUpEarly:refuser_asked_again"
                  ELSE IF S.roundBad THEN "XP_GiveUpEarly:after_failed_round"     \* step 10: "go back to step 2"
                  ELSE "XP_GiveUpEarly:other")
      ELSE IF effHigh >= C.happy /\ effLow >= C.happy THEN Same("XP_FailureIsJustified")
@@ -228,7 +239,7 @@ VHang(e) == Same("XP_NoResult")
 
 VQuiescent(e) ==
   LET D == e.disk
-      orphans == UNION {{s} \X ToSet(D[s].incoming) : s \in Srv}
+      orphans == UNION {{s} \X ToSet(D[s].incoming) : s \in Srv} \ S.abortLost
   IN IF \E s \in Srv : ToSet(D[s].final) # FinalOn(S.St, s) THEN Same("store_disk_differs")
      ELSE IF \E s \in Srv : ToSet(D[s].incoming) # IncomingOn(S.St, s) THEN Same("store_incoming_differs")
      ELSE IF orphans # {} /\ orphans \subseteq S.lateAlloc THEN Same("XP_NoOrphanBuckets:late_answer")
